@@ -680,6 +680,38 @@ def h5_content(timeout=300, part=None, **kw):
                          timeout, concretize=conc, part=part)
 
 
+# ---- token faults in an embedded ToUnicode CMap program
+CMAP_TOKENS = [b"/CIDInit", b"/ProcSet", b"findresource", b"begin", b"12", b"dict", b"begin", b"begincmap", b"/CIDSystemInfo", b"<< /Registry (Adobe) /Ordering (UCS) /Supplement 0 >>", b"def",
+               b"/CMapName", b"/T", b"def", b"/CMapType", b"2", b"def", b"/WMode", b"0", b"def", b"1", b"begincodespacerange", b"<0000>", b"<FFFF>", b"endcodespacerange",
+               b"1", b"beginbfchar", b"<0001>", b"<0041>", b"endbfchar", b"2", b"beginbfrange", b"<0002>", b"<0003>", b"<0042>", b"<0004>", b"<0005>", b"[<0050> <0051>]", b"endbfrange",
+               b"1", b"begincidrange", b"<0000>", b"<00FF>", b"0", b"endcidrange", b"1", b"begincidchar", b"<0100>", b"7", b"endcidchar", b"1", b"beginnotdefrange", b"<0000>", b"<001F>", b"1",
+               b"endnotdefrange", b"/Other", b"usecmap", b"endcmap", b"CMapName", b"currentdict", b"/CMap", b"defineresource", b"pop", b"end", b"end"]
+CMAP_BAD = [b"", b"/N", b"(s)", b"[1 /A (x)]", b"[]", b"<< /A 1 >>", b"true", b"null", b"7", b"-2.5", b"<41>", b"<>", b"<0102030405>", b"endbfrange", b"usecmap", b"def", b"endcidrange", b"begincmap"]
+
+
+def cmap_doc(program):
+    objs = seed_objects2()
+    objs[9] = Stream({}, program)
+    return pdfgen.build(objs)
+
+
+def h5_cmap(timeout=300, part=None, **kw):
+    """every token of a ToUnicode CMap program (all section kinds) replaced by a token of another kind, an operator out of place, or removed"""
+    def fn(ex):
+        i = ex.choice(len(CMAP_TOKENS), "token")
+        j = ex.choice(len(CMAP_BAD), "bad")
+        toks = list(CMAP_TOKENS)
+        toks[i] = CMAP_BAD[j]
+        r = run_extract(cmap_doc(b" ".join(toks)))
+        ex.require(r is None, "ToUnicode CMap with token %d (%r) replaced by %r: %s" % (i, CMAP_TOKENS[i], CMAP_BAD[j], r), i=i, j=j)
+
+    def conc(m, info):
+        return {"what": "cmap", "i": info["i"], "j": info["j"]}
+    from pdfminer import high_level
+    return core.run_symx("H5_content", fn, [high_level.extract_text], {"program": "ToUnicode CMap of %d tokens (def, codespacerange, bfchar, bfrange incl. array form, cidrange, cidchar, notdefrange, usecmap)" % len(CMAP_TOKENS),
+                                                                        "faults": "%d replacement tokens at every position" % len(CMAP_BAD)}, timeout, concretize=conc, part=part)
+
+
 # ------------------------------------------------------------------------------------------ replay: through extract_text where possible
 def _doc_with_stream(attrs, payload):
     objs = seed_objects()
@@ -775,6 +807,11 @@ def replay(harness, inp):
         apply_fault(objs, tuple(inp["site"]), inp["kind"])
         r = run_extract(pdfgen.build(objs), entry=inp.get("entry", "text"))
         return None if r is None else "seed document %d with object %d entry %s replaced by %s: %s" % (inp.get("seed", 1), inp["site"][0], "/".join(map(str, inp["site"][1:])), inp["kind"], r)
+    if what == "cmap":
+        toks = list(CMAP_TOKENS)
+        toks[inp["i"]] = CMAP_BAD[inp["j"]]
+        r = run_extract(cmap_doc(b" ".join(toks)))
+        return None if r is None else "ToUnicode CMap %r (token %d replaced by %r): %s" % (b" ".join(toks), inp["i"], CMAP_BAD[inp["j"]], r)
     if what == "encrypt":
         r = run_extract(encrypted_doc(inp["rev"], (tuple(inp["site"]), inp["kind"])))
         return None if r is None else "R%d encryption dictionary with entry %s replaced by %s: %s" % (inp["rev"], "/".join(map(str, inp["site"][1:])), inp["kind"], r)
@@ -821,6 +858,7 @@ def jobs(tier):
     for k in range(2):
         J.append(Job("H4_objstm:%d" % k, "h4_objstm", {"part": [k, 2, 5]}, 300, "H4_faults"))
     J.append(Job("H4_encrypt", "h4_encrypt", {}, 300, "H4_faults"))
+    J.append(Job("H5_cmap", "h5_cmap", {}, 300, "H5_content"))
     for k in range(2):
         J.append(Job("H5_content:%d" % k, "h5_content", {"part": [k, 2, 4]}, 300, "H5_content"))
     if tier != "quick":
